@@ -455,6 +455,13 @@ class IMAPClientCommand:
         #
         self.completed = False
 
+        # If the mbox management task finds that this command can not be run
+        # against the mailbox (eg: its message set is out of range) it stores
+        # the exception here before setting `ready` so that the task waiting
+        # in `ready_and_okay()` raises it instead of waiting forever.
+        #
+        self.error: Exception | None = None
+
     ##################################################################
     #
     @asynccontextmanager
@@ -466,6 +473,8 @@ class IMAPClientCommand:
         try:
             mbox.task_queue.put_nowait(self)
             await self.ready.wait()
+            if self.error is not None:
+                raise self.error
             if mbox.deleted:
                 from .mbox import NoSuchMailbox
 
